@@ -663,22 +663,43 @@ impl<'a> MetaStoreUpdate<'a> {
             .host
             .clone();
 
-        let link_count_table = link_table
-            .get(&failed_proxy_host)
-            .expect("consume_new_proxy: cannot find failed proxy");
-        let peer_host = link_count_table
-            .iter()
-            .filter(|(peer_host, _)| free_host_proxies.contains_key(*peer_host))
-            .min_by(|(host1, count1), (host2, count2)| {
-                Self::second_host_cmp(
-                    host1.as_str(),
-                    **count1,
-                    host2.as_str(),
-                    **count2,
-                    &free_host_proxies,
-                )
+        // The new proxy will be paired with the surviving partner of the failed proxy,
+        // so prefer a host other than the partner's host to keep the chunk on two machines.
+        let partner_host = self
+            .store
+            .clusters
+            .values()
+            .flat_map(|cluster| cluster.chunks.iter())
+            .find_map(|chunk| {
+                if chunk.proxy_addresses[0] == failed_proxy_address {
+                    Some(chunk.hosts[1].clone())
+                } else if chunk.proxy_addresses[1] == failed_proxy_address {
+                    Some(chunk.hosts[0].clone())
+                } else {
+                    None
+                }
+            });
+        let choose_peer_host = |base_host: &String| {
+            link_table.get(base_host).and_then(|link_count_table| {
+                link_count_table
+                    .iter()
+                    .filter(|(peer_host, _)| free_host_proxies.contains_key(*peer_host))
+                    .min_by(|(host1, count1), (host2, count2)| {
+                        Self::second_host_cmp(
+                            host1.as_str(),
+                            **count1,
+                            host2.as_str(),
+                            **count2,
+                            &free_host_proxies,
+                        )
+                    })
+                    .map(|(peer_host, _)| peer_host)
             })
-            .map(|(peer_host, _)| peer_host)
+        };
+        let peer_host = partner_host
+            .as_ref()
+            .and_then(choose_peer_host)
+            .or_else(|| choose_peer_host(&failed_proxy_host))
             .ok_or(MetaStoreError::NoAvailableResource)?;
 
         let peer_proxy = MetaStoreQuery::new(self.store)
